@@ -409,6 +409,7 @@ def reallocate (h : Heur) (s : St) (nlenB addrB olenB : Nat) (f : Flags) :
     let oaddr := addrB / bsz s
     if nlen = olen then (s, .ok, addrB, olenB, none)
     else if guarded s oaddr olen then (s, .segm, addrB, olenB, none)
+    else if s.strict && checkBits s oaddr olen true ≠ .ok then (s, .segm, addrB, olenB, none)
     else if nlen < olen then
       let (s, rc) := deallocLw s (oaddr + nlen) (olen - nlen)
       if rc = .ok then (s, .ok, addrB, nlen * bsz s, none) else (s, rc, addrB, olenB, none)
@@ -430,23 +431,28 @@ def checkStatus (s : St) (addrB lenB : Nat) (allocated : Bool) : Rc :=
     if guarded s off len then .segm
     else checkBits s off len allocated
 
-/-- `_fsm_trim_tail_lw` -/
-def trimTail (s : St) : St × Rc :=
+/-- first half of `_fsm_trim_tail_lw`: try to move the bitmap to free space nearer to the file start -/
+def trimMove (s : St) : St × Rc :=
   let (s1, rc, off) := allocAligned s (bmLenBlk s) (bmOffBlk s)
-  let r : St × Rc :=
-    match rc with
-    | .noFree => (s1, .ok)
-    | .ok =>
-      if off * bsz s < s.bmoff then initLw s1 (off * bsz s) (bmLenBlk s * bsz s)
-      else deallocLw s1 off (bmLenBlk s)
-    | rc => (s1, rc)
-  if r.2 ≠ .ok then r else
-  let s := r.1
+  match rc with
+  | .noFree => (s1, .ok)
+  | .ok =>
+    if off * bsz s < s.bmoff then initLw s1 (off * bsz s) (bmLenBlk s * bsz s)
+    else deallocLw s1 off (bmLenBlk s)
+  | rc => (s1, rc)
+
+/-- second half: cut the file behind the last allocated block (never before the end of the bitmap) -/
+def trimCut (s : St) : St :=
   let lastblk := (s.bmoff + s.bmlen) / bsz s
   let lastblk := match prevSet s.bits lastblk (nbits s) with
     | some i => i + 1
     | none => lastblk
-  if s.fsize > lastblk * bsz s then (truncate s (lastblk * bsz s), .ok) else (s, .ok)
+  if s.fsize > lastblk * bsz s then truncate s (lastblk * bsz s) else s
+
+/-- `_fsm_trim_tail_lw` -/
+def trimTail (s : St) : St × Rc :=
+  let r := trimMove s
+  if r.2 ≠ .ok then r else (trimCut r.1, .ok)
 
 /-- `_fsm_init_new_lw` (after `_fsm_init_impl`): a fresh file -/
 def openNew (bpow aunit hdrlenOpt bmlenOpt : Nat) (strict : Bool) : St × Rc :=
@@ -476,5 +482,24 @@ def clear (s : St) (trim : Bool) : St × Rc :=
     let bmlen := s.bmlen
     let (s, rc) := initLw { s with bmlen := 0, bmoff := 0 } bmoff bmlen
     if rc = .ok ∧ trim then trimTail s else (s, rc)
+
+/-! ## operation histories -/
+
+inductive Op
+  | alloc (lenB hintB : Nat) (f : Flags)
+  | dealloc (addrB lenB : Nat)
+  | realloc (nlenB addrB olenB : Nat) (f : Flags)
+  | sync
+  | reopen (noTrim : Bool)
+  | clear (trim : Bool)
+
+/-- one API call -/
+def apply (h : Heur) (s : St) : Op → St
+  | .alloc l hint f => (allocate h s l hint f).1
+  | .dealloc a l => (deallocate s a l).1
+  | .realloc n a ol f => (reallocate h s n a ol f).1
+  | .sync => sync s
+  | .reopen nt => (reopen s nt).1
+  | .clear t => (clear s t).1
 
 end IwModel.Fsm
